@@ -189,6 +189,9 @@ def _col_value(name, code, row):
     return float(code)
 
 
+ALLOWED_ROOT = {"data", "mesh", "solution", "version_info", "applied_vector_potential", "epsilon"}
+
+
 def read_frames(h5, k, dts_by_code):
     """Abstract the frames of an output file (open handle or path)."""
     frames = []
@@ -197,8 +200,13 @@ def read_frames(h5, k, dts_by_code):
         h5 = h5py.File(h5, "r")
         close = True
     try:
+        # the documented layout of an output file: anything else at the root (scratch groups, half-written frames parked
+        # outside "data", ...) is content that is not "exactly the frames recorded"
+        extra = sorted(set(h5.keys()) - ALLOWED_ROOT) if getattr(h5, "name", "/") == "/" else []
+        stray = [{"idx": BOT, "step": BOT, "time": BOT, "content": BOT, "hasrs": False, "rs": [], "complete": False,
+                  "extra": extra}] if extra else []
         if "data" not in h5:
-            return []
+            return stray
         keys = list(h5["data"])
         for n, key in enumerate(keys):
             g = h5["data"][key]
@@ -231,6 +239,7 @@ def read_frames(h5, k, dts_by_code):
                 fr["content"] = BOT
             fr["complete"] = complete
             frames.append(fr)
+        frames.extend(stray)
     finally:
         if close:
             h5.close()
